@@ -264,6 +264,9 @@ func (x *Enc) encodeTop() {
 				x.addObl("forbid", fmt.Sprintf("%s.forbid[%s].no_call_site", shortFn(fn), cs[1]), "the function must not call "+cs[1], token.NoPos, "true", goal)
 				continue
 			}
+			if p, ok := x.con.PropOnly["count["+cs[0]+"]"]; ok && p != x.prop {
+				continue
+			}
 			if x.countHits[cs[0]] == 0 {
 				x.addObl("vacuity", fmt.Sprintf("%s.count[%s].matches_a_call_site", shortFn(fn), cs[0]), "count pattern "+cs[1]+" matches no call in the function", token.NoPos, "true", "false")
 			}
@@ -290,6 +293,9 @@ func (x *Enc) encodeTop() {
 	if x.con != nil {
 		for ri, r := range fr.rets {
 			for ci, c := range x.con.Ensures {
+				if p, ok := x.con.PropOnly[c.Label]; ok && p != x.prop {
+					continue
+				}
 				info := x.eng.clauses[c]
 				env := x.newSpecEnv(info, fr.paramVals(info.params, r.vals), r.heap, h0)
 				goal := x.evalBool(env, clauseExpr(info))
